@@ -171,7 +171,7 @@ def parseDim (toks : List String) : Option DimOp := do
 
 def dimText (d : DimOp) : String :=
   let order := d.order.getD (List.range d.args.length)
-  "const long idx = &" ++ print (.sub (.var "x") (dimIndexExpr d.dims d.args order)) ++ " - x;"
+  "const long int idx = &" ++ print (.sub (.var "x") (dimIndexExpr d.dims d.args order)) ++ " - x;"
 
 def step (_ : Unit) (toks : List String) : Unit × String :=
   match toks with
